@@ -58,6 +58,8 @@ fn install_panic_hook() {
             eprintln!("HARNESS-ERROR: panic inside the simulator: {} at {}", msg, loc);
             std::process::exit(2);
         }
+        // one line: the message ends up in replay files and evidence
+        let msg = msg.split_whitespace().collect::<Vec<_>>().join(" ");
         LAST_PANIC.with(|p| *p.borrow_mut() = format!("{} at {}", msg, loc));
     }));
 }
